@@ -114,6 +114,20 @@ def gen_cases(ctx, ca):
                      ("range 21 20", "SelfPorts"), ("range 65535 1024", "SelfItems")]:
         m(ln, [(view,)])
     selfs = [("SelfItems",), ("SelfPorts",), ("SelfSport",)]
+    # every operand count 0..12 for eq / neq on every platform (IOS accepts lists, NX-OS / ASA one operand),
+    # and ranges whose decimal spellings sort differently from their values (9-10, 80-443, 99-1000)
+    for op in ("eq", "neq"):
+        for cnt in range(0, 13):
+            xs = [1, 22, 80, 443, 1024, 3000, 8080, 9, 10, 65535, 99, 1000, 7][:cnt]
+            for plat_ in ("ios", "nxos", "asa"):
+                m(" ".join([op] + [str(x) for x in xs]), platform=plat_)
+            if op == "eq":
+                m(" ".join([op] + [str(x) for x in xs]), [("SelfSport",)])
+    for a, b in [(9, 10), (80, 443), (99, 1000), (81, 65535), (443, 1024), (1, 79), (5, 5), (10, 9)]:
+        for s in selfs:
+            m(f"range {a} {b}", [s])
+        m(f"eq {a} {b}", [("SelfSport",)])
+        m(f"neq {a} {b}", [("SelfItems",)])
     # single-operand operators over the grid, every view
     for op in ("gt", "lt", "eq", "neq"):
         for x in GRID:
@@ -266,7 +280,16 @@ def oracle(ctx, kernel, meta):
     try:
         p = ca.Port(meta["line"], protocol=meta["protocol"], platform=meta["platform"], version=meta["version"],
                     port_nr=meta["port_nr"])
-    except Exception:  # noqa
+    except Exception as ex:  # noqa
+        # inside the domain (numeric operands 1..65535, no repeats, 1..10 operands for eq/neq on IOS, one on
+        # NX-OS/ASA, one for gt/lt, two for range) every expression denotes a port set: a refusal is a failure
+        ops_ = toks[1:]
+        numeric = all(t.isdigit() and 1 <= int(t) <= 65535 for t in ops_) and len(set(ops_)) == len(ops_)
+        cnt_ok = {"gt": len(ops_) == 1, "lt": len(ops_) == 1, "range": len(ops_) == 2}.get(
+            toks[0], 1 <= len(ops_) <= (10 if meta["platform"] == "ios" else 1))
+        if numeric and cnt_ok:
+            return {"what": f"{meta['line']!r} ({meta['platform']}) is a valid port expression but was refused: "
+                            f"{type(ex).__name__}: {str(ex)[:100]}"}
         return None
     xs = list(p.items)
     if any(not 1 <= x <= 65535 for x in xs) or len(set(xs)) != len(xs):
